@@ -148,6 +148,9 @@ class Symb:
     if op in ('ite', 'cond'):
       return self.f(op, self._as_expr(self.conv(a[0])), self.conv(a[1]), self.conv(a[2]))
     if op == 'sub':
+      ax = _newaxis_position(a[1])
+      if ax is not None:
+        return self.f('expand_dims', self.conv(a[0]), sp.Integer(ax))       # x[None], x[jnp.newaxis, ...], x[:, None] ...
       return self.f('getitem', self.conv(a[0]), self._as_expr(self.conv(a[1])))
     if op == 'slice':
       return self.f('slice_', *[self._as_expr(self.conv(x)) for x in a])
@@ -215,6 +218,8 @@ class Symb:
         return self.conv(args[0]) - self.conv(args[1])
       if d in ('jax.numpy.divide', 'jax.numpy.true_divide') and len(args) == 2:
         return self.conv(args[0]) / self.conv(args[1])
+      if d in ('jax.numpy.expand_dims', 'numpy.expand_dims') and len(args) == 2 and args[1].op == 'const' and isinstance(cval(args[1]), int) and cval(args[1]) >= 0:
+        return self.f('expand_dims', self.conv(args[0]), sp.Integer(cval(args[1])))
       if d in ('jax.numpy.equal', 'jax.numpy.not_equal') and len(args) == 2:
         return self.f('eq' if d.endswith('.equal') else 'ne', *sorted([self.conv(args[0]), self.conv(args[1])], key=sp.default_sort_key))
       if d in ('jax.numpy.mod', 'jax.numpy.remainder') and len(args) == 2:
@@ -258,6 +263,35 @@ class Symb:
     if f.op in ('sym', 'attr', 'sub'):
       return self.f('call_', self.conv(f), *[self._as_expr(self.conv(x)) for x in args])
     return self.opaque_sym(t)
+
+
+def _is_newaxis(t):
+  return (t.op == 'const' and cval(t) is None) or (t.op == 'ext' and t.args[0] in ('jax.numpy.newaxis', 'numpy.newaxis'))
+
+
+def _is_full(t):
+  if t.op == 'slice':
+    return all(x.op == 'const' and cval(x) is None for x in t.args)
+  return t.op == 'const' and cval(t) is Ellipsis
+
+
+def _newaxis_position(idx):
+  """axis inserted by an index made of one None / newaxis and otherwise full slices / an ellipsis after it; else None"""
+  if _is_newaxis(idx):
+    return 0
+  if idx.op != 'tuple':
+    return None
+  items = list(idx.args)
+  news = [i for i, x in enumerate(items) if _is_newaxis(x)]
+  if len(news) != 1:
+    return None
+  k = news[0]
+  before, after = items[:k], items[k + 1:]
+  if not all(x.op == 'slice' and _is_full(x) for x in before):
+    return None          # an ellipsis before the new axis makes the position depend on the rank
+  if not all(_is_full(x) for x in after):
+    return None
+  return k
 
 
 def _opname(o):
